@@ -59,16 +59,22 @@ func genFaultCase(t *rapid.T) faultCase {
 
 func faultOffsets(size int, bufSize int, fracs []uint16, dense bool) []int {
 	set := map[int]bool{}
+	// every offset for small outputs; larger ones by offset classes (the budget per case is bounded:
+	// a 100 KiB output would otherwise mean 100 000 operations of 100 KiB each)
 	limit := 600
 	if dense {
-		limit = 1 << 30
+		limit = 8192
 	}
 	if size <= limit {
 		for i := 0; i < size; i++ {
 			set[i] = true
 		}
 	} else {
-		for i := 0; i < 64 && i < size; i++ {
+		edge := 64
+		if dense {
+			edge = 256
+		}
+		for i := 0; i < edge && i < size; i++ {
 			set[i] = true
 			set[size-1-i] = true
 		}
@@ -139,7 +145,7 @@ func runFaultCase(c faultCase) *Violation {
 		if v := reopenAndCompare(prop, path, want, spec.DiffOpts{}); v != nil {
 			return v
 		}
-		for _, off := range faultOffsets(size, 4096, c.Fracs, dense || c.Op == "writeto") {
+		for _, off := range faultOffsets(size, 4096, c.Fracs, dense || (c.Op == "writeto" && size <= 16384)) {
 			faultStats.faulted++
 			if off > 0 && off < size-zap.FooterSize {
 				faultStats.body++
